@@ -85,7 +85,8 @@ class Inputs:
 
 
 class EngineSeams:
-    def __init__(self, ch, unknown_rate=0.0, uid_mode="random", gc_rate=0.0, record_pruned=True):
+    def __init__(self, ch, unknown_rate=0.0, uid_mode="random", gc_rate=0.0, record_pruned=True, patch_uid=True):
+        self.patch_uid = patch_uid
         self.ch = ch
         self.unknown_rate = unknown_rate
         self.uid_mode = uid_mode
@@ -132,6 +133,9 @@ class EngineSeams:
         sevm.Exec.check = exec_check
         self._undo.append((sevm.Exec, "check", orig_exec_check))
 
+        if not self.patch_uid:
+            self.active = True
+            return self
         orig_uuid4 = uuid.uuid4
 
         class _U:
